@@ -7,8 +7,8 @@ import (
 	"go/token"
 	"go/types"
 	"os"
-	"runtime"
 	"path/filepath"
+	"runtime"
 	"sort"
 	"strings"
 
@@ -27,7 +27,7 @@ type World struct {
 	Prog   *ssa.Program
 	SSA    *ssa.Package
 	Sizes  types.Sizes
-	Arch   string // GOARCH the program was loaded for ("" = host default)
+	Arch   string          // GOARCH the program was loaded for ("" = host default)
 	Funcs  []*ssa.Function // every source function of the package incl. methods, closures, generic instantiations
 	byObj  map[*types.Func]*ssa.Function
 	inPkg  map[*ssa.Function]bool
